@@ -35,7 +35,8 @@ def norm_callee(s):
 def build_xlate():
     binp = os.path.join(vlib.GEN, "bin", "verifxlate")
     src = os.path.join(vlib.HARNESS, "xlate")
-    if not os.path.exists(binp) or os.path.getmtime(binp) < os.path.getmtime(os.path.join(src, "main.go")):
+    newest = max(os.path.getmtime(os.path.join(src, f)) for f in os.listdir(src) if f.endswith(".go") or f in ("go.mod", "go.sum"))
+    if not os.path.exists(binp) or os.path.getmtime(binp) < newest:
         os.makedirs(os.path.dirname(binp), exist_ok=True)
         rc, out, _ = vlib.sh(["go", "build", "-o", binp, "."], cwd=src, env=vlib.GOENV, timeout=300)
         if rc != 0:
@@ -136,8 +137,8 @@ def parse_races(text):
                 if fl.startswith(vlib.REPO + "/") or "/smartcontractkit/wsrpc" in fn:
                     top = (kind, fn, os.path.relpath(fl, vlib.REPO) if fl.startswith(vlib.REPO + "/") else fl, int(ln))
                     break
-            acc.append(top or (kind, frames[0][0] if frames else "?", frames[0][1] if frames else "?", int(frames[0][2]) if frames else 0))
-        out.append(dict(accesses=acc, text=blk.strip()[:6000]))
+            acc.append(top or (kind, "harness:" + (frames[0][0] if frames else "?"), frames[0][1] if frames else "?", int(frames[0][2]) if frames else 0))
+        out.append(dict(accesses=acc, text=blk.strip()[:6000], harness_only=bool(acc) and all(a[1].startswith("harness:") for a in acc)))
     return out
 
 
@@ -198,6 +199,10 @@ def run(ctx):
         byline.setdefault((s["file"], s["line"]), []).append(s)
     seen = set()
     raced_locs = set()
+    own = [rr for rr in races if rr.get("harness_only")]
+    if own:
+        ctx.notes.append("%d race report(s) entirely inside the harness's own test code (no library frame at either access) are not counted: %s" % (len(own), own[0]["accesses"]))
+    races = [rr for rr in races if not rr.get("harness_only")]
     for rr in races:
         locs = set()
         accepted = []
